@@ -41,6 +41,7 @@ func runC02(p *Program, r *Report) {
 	c05pair(p, r, env, "C02.msglock.pair")
 	c05msglock(p, r, "C02.msglock")
 	c02flush(p, r, "C02.flush")
+	cFramePayload(p, r, "C02.payload")
 }
 
 // emitterSites: call sites that operate on the connection's bufio.Writer or write to rwc.
